@@ -26,7 +26,8 @@ RULE = ("job = seed -> proof site x corruption class x key type x version. "
         "the fault-free twin of every scenario completes and attributes the "
         "expected identity.  distinct = digest(scenario, site, class); "
         "non-trivial = fault fired (or honest twin completed)"
-        ' Further sites/classes: delegated credential (honest twin; flipped delegation; delegation by another key; impostor chain with the credential on the second entry or on the victim entry), post-handshake Finished flipped, SRP user name with no SRP suite offered, DER signatures extended INSIDE the SEQUENCE.')
+        ' Further sites/classes: delegated credential (honest twin; flipped delegation; delegation by another key; impostor chain with the credential on the second entry or on the victim entry), post-handshake Finished flipped, SRP user name with no SRP suite offered, DER signatures extended INSIDE the SEQUENCE.'
+        ' Consistent liar that really signs ServerKeyExchange with an unoffered hash; identical signatures in two different handshakes (proof independent of the transcript).')
 LEVEL_TEXT = ("Seeded search over (site, corruption, key type, version); "
               "every run also executes the honest twin so that the oracle is "
               "shown not to alarm on valid proofs.")
